@@ -3,7 +3,8 @@
 (* Design-level state machine for C18: one abstract NAS model of kind Kind *)
 (* driven by every sequence of calls over                                  *)
 (*   { export, export(add_bn=False), summary, cost, get_cost(n),           *)
-(*     cost_specification := c, forward, train(), eval(),                  *)
+(*     str() / named_nas_parameters() / ..., cost_specification := c,      *)
+(*     forward, nas.train(), nas.eval(), nas.seed.train(), nas.seed.eval(),*)
 (*     one option call (update_softmax_options(o = v), PIT mask switches,  *)
 (*     discrete_cost := v) }.                                              *)
 (*                                                                         *)
@@ -30,7 +31,7 @@
 (***************************************************************************)
 EXTENDS Observers, TLC
 
-CONSTANTS Impl,       \* "ref" | "pinned" | "f16" | "costkeys" | "optreset"
+CONSTANTS Impl,       \* "ref" | "pinned" | "f16" | "costkeys" | "optreset" | "wrapmode" | "rootmode"
           Half,       \* "modes" | "options"
           Temps,      \* temperatures x 1000 (contains 1000, the constructor default)
           Kind,       \* "pit" | "mps" | "sn"
@@ -41,13 +42,13 @@ CONSTANTS Impl,       \* "ref" | "pinned" | "f16" | "costkeys" | "optreset"
 VARIABLES core, cs, par, init, hist
 vars == <<core, cs, par, init, hist>>
 
-NoCore  == [wt |-> FALSE, st |-> FALSE, theta |-> "-", bn |-> 0, dk |-> {}, opt |-> DefaultOpt, samp |-> "-"]
+NoCore  == [wt |-> FALSE, st |-> FALSE, theta |-> "-", bn |-> 0, frz |-> FALSE, dk |-> {}, opt |-> DefaultOpt, samp |-> "-"]
 HardSet == IF Kind = "pit" THEN {FALSE} ELSE BOOLEAN
 
 Opts == [temp : Temps, hard : BOOLEAN, gumbel : BOOLEAN, disable : BOOLEAN,
          tf : BOOLEAN, trf : BOOLEAN, td : BOOLEAN, dc : BOOLEAN]
 
-TypeOK == /\ core \in [wt : BOOLEAN, st : BOOLEAN, theta : {"-", "soft", "hard"}, bn : 0..MaxBn, dk : SUBSET {"costkeys"},
+TypeOK == /\ core \in [wt : BOOLEAN, st : BOOLEAN, theta : {"-", "soft", "hard"}, bn : 0..MaxBn, frz : BOOLEAN, dk : SUBSET {"costkeys"},
                        opt : Opts, samp : {"-", "sm", "gs", "none"}]
           /\ cs \in Specs
           /\ par \in [hasbn : BOOLEAN, maxbn : {MaxBn}]
@@ -56,17 +57,21 @@ TypeOK == /\ core \in [wt : BOOLEAN, st : BOOLEAN, theta : {"-", "soft", "hard"}
 \* blocks, cost specification), followed by "the usual forward pass" so that the stored coefficients are those of
 \* the current mode
 GumSet == IF Kind = "sn" /\ Half = "options" THEN BOOLEAN ELSE {FALSE}
-Init == \E train \in BOOLEAN, hard \in (IF Half = "modes" THEN HardSet ELSE {FALSE}), gum \in GumSet,
+\* modes of a FRESHLY CONSTRUCTED wrapper, no mode call made (modes half): PIT / MPS restore the mode of the user's
+\* network on wrapper and seed; SuperNet leaves the layers in eval mode under a wrapper whose flag is True.
+\* The options half starts after an explicit nas.train() / nas.eval().
+FreshModes == IF Half = "modes" /\ Kind = "sn" THEN {<<TRUE, FALSE>>} ELSE {<<TRUE, TRUE>>, <<FALSE, FALSE>>}
+Init == \E md \in FreshModes, hard \in (IF Half = "modes" THEN HardSet ELSE {FALSE}), gum \in GumSet,
            c0 \in (IF Half = "modes" THEN {"A", "D"} ELSE {"A"}) :
           LET o0 == [DefaultOpt EXCEPT !.hard = hard, !.gumbel = gum] IN
           /\ par = [hasbn |-> Kind # "mps", maxbn |-> MaxBn]
-          /\ core = [wt |-> train, st |-> train, theta |-> Sampled(Kind, hard, train), bn |-> 0, dk |-> {},
+          /\ core = [wt |-> md[1], st |-> md[2], theta |-> Sampled(Kind, hard, md[2]), bn |-> 0, frz |-> FALSE, dk |-> {},
                      opt |-> o0, samp |-> SamplerOf(Kind, o0)]
           /\ cs = c0
           /\ init = IF TrackHist THEN [core |-> core, cs |-> c0] ELSE [core |-> NoCore, cs |-> "A"]
           /\ hist = <<>>
 
-InHalf(a) == IF Half = "modes" THEN a.a # "upd" ELSE a.a \notin {"setcs", "getcost", "mode"}
+InHalf(a) == IF Half = "modes" THEN a.a # "upd" ELSE a.a \notin {"setcs", "getcost", "mode", "seedmode", "inspect", "freezebn"}
 
 Do(a) == /\ Enabled(Kind, cs, a) /\ InHalf(a)
          /\ (TrackHist => Len(hist) < MaxLen)
@@ -82,6 +87,9 @@ GetCost(n)   == Do([a |-> "getcost", n |-> n])
 SetCS(c)     == Do([a |-> "setcs", c |-> c])
 Forward      == Do([a |-> "forward"])
 Mode(v)      == Do([a |-> "mode", v |-> v])
+SeedMode(v)  == Do([a |-> "seedmode", v |-> v])
+Inspect      == Do([a |-> "inspect"])
+FreezeBN     == Kind # "mps" /\ Do([a |-> "freezebn"])         \* (MPS folds the BatchNorm layers at import)
 \* one option call that changes the option (v is an element of Temps, or 0 / 1)
 Upd(o, v)    == ~OptIs(core.opt, o, v) /\ Do([a |-> "upd", o |-> o, v |-> v])
 OptVals(o)   == IF o = "temp" THEN Temps ELSE {0, 1}
@@ -92,6 +100,8 @@ Next == \/ \E b \in BOOLEAN : Export(b)
         \/ \E c \in Specs : SetCS(c)
         \/ Forward
         \/ \E v \in BOOLEAN : Mode(v)
+        \/ \E v \in BOOLEAN : SeedMode(v)
+        \/ Inspect \/ FreezeBN
         \/ \E o \in OptNames(Kind) : \E v \in OptVals(o) : Upd(o, v)
 
 Spec == Init /\ [][Next]_vars
@@ -99,7 +109,12 @@ Spec == Init /\ [][Next]_vars
 (***************************************************************************)
 (* Properties                                                              *)
 (***************************************************************************)
-\* the inner model is in the mode of the wrapper ("model.training is True but model.seed.training is False" is F16)
+\* nas.train() / nas.eval() put the inner model in the mode of the wrapper, nas.seed.train() / nas.seed.eval() touch the
+\* inner model only (that observers never change a mode is part of ObserversNeutral; "model.training is True but
+\* model.seed.training is False" after export() was F16)
+ModeFrame ==
+    [][/\ (\A v \in BOOLEAN : Mode(v) => core'.wt = v /\ core'.st = v)
+       /\ (\A v \in BOOLEAN : SeedMode(v) => core'.wt = core.wt /\ core'.st = v)]_vars
 ModesAgree == core.st = core.wt
 
 \* no observer call ever adds an attribute to a module of the model
@@ -110,6 +125,7 @@ ObserversNeutral ==
     [][/\ (\A b \in BOOLEAN : Export(b) => core' = core /\ cs' = cs)
        /\ (Summary => core' = core /\ cs' = cs)
        /\ (Cost => core' = core /\ cs' = cs)
+       /\ (Inspect => core' = core /\ cs' = cs)
        /\ (\A n \in {"a", "b"} : GetCost(n) => core' = core /\ cs' = cs)]_vars
 
 \* the setter of the cost specification touches the specification only
@@ -122,6 +138,7 @@ OptionFrame ==
           /\ \A f \in DOMAIN core.opt \ {o} : core'.opt[f] = core.opt[f]
           /\ core'.samp = SamplerOf(Kind, core'.opt)
           /\ core'.wt = core.wt /\ core'.st = core.st /\ core'.theta = core.theta /\ core'.bn = core.bn /\ core'.dk = core.dk
+          /\ core'.frz = core.frz
           /\ cs' = cs]_vars
 
 \* the sampler in force is the one the options (as the user set them) select
